@@ -12,7 +12,8 @@ from __future__ import annotations
 
 import ast
 
-from harness.common import TranslateError, src_text, ast_digest
+from harness.common import TranslateError, src_text, ast_digest, SRC
+from translate import c08_keys
 
 KINDS = {'ent_id': 'KEnt', 'solid_id': 'KSolid', 'face_id': 'KFace', 'group_id': 'KGroup', 'vis_id': 'KVis',
          'node_id': 'KNode'}
@@ -102,6 +103,14 @@ def translate() -> tuple[str, dict]:
         raise TranslateError('class IDMan not found')
     copy_rows = _copy_census(trees['vmf.py'], trees['instancing.py'])
     node_realloc, node_in_del = _node_shape(trees['vmf.py'], acquires, releases)
+    # round 3: every way a key can enter an entity's private keyvalue dictionary (all modules that mention it)
+    key_trees = dict(trees)
+    for path in sorted(SRC.rglob('*.py')):
+        rel = path.relative_to(SRC).as_posix()
+        if rel not in key_trees and '._keys' in path.read_text(encoding='utf8'):
+            key_trees[rel] = ast.parse(path.read_text(encoding='utf8'))
+    key_rows, key_exposed, key_reads = c08_keys.keys_census(key_trees)
+    node_registers = c08_keys.node_setitem_registers(trees['vmf.py'])
     lines = [
         '(* GENERATED by translate/c08_sites.py from /repo/src/srctools/vmf.py, instancing.py. Do not edit. *)',
         'From Coq Require Import ZArith List String.', 'Import ListNotations.', 'Open Scope string_scope.',
@@ -131,12 +140,22 @@ def translate() -> tuple[str, dict]:
         '].',
         f'Definition node_realloc_on_add : bool := {"true" if node_realloc else "false"}.',
         f'Definition node_release_in_del : bool := {"true" if node_in_del else "false"}.',
+        '(* every place that can put a key into an entity\'s private keyvalue dictionary: does it go through',
+        '   Entity.__setitem__ (where the nodeid is registered) or provably not concern the nodeid key? *)',
+        'Inductive kwsite := KwCtor | KwSetitem | KwOther.',
+        'Definition keys_write_sites : list (string * string * kwsite * bool) := [',
+        ';\n'.join('  ("%s", "%s", %s, %s)' % (f, d.replace('"', '""'), c, 'true' if ok else 'false') for f, d, c, ok, _ in key_rows),
+        '].',
+        f'Definition node_setitem_registers : bool := {"true" if node_registers else "false"}.',
         '',
     ]
     side.update(releases=[list(r) for r in releases], acquires=[list(a) for a in acquires],
                 id_stores=[list(s) for s in id_stores], fixup_init_requires_positive=fix_pos, fixup_set_start=fix_start, fixup_init_defers=fix_defer,
                 idman_lower_guard=lower_guard, class_kind=[list(c) for c in class_kind],
-                copy_sites=[list(c) for c in copy_rows], node_realloc_on_add=node_realloc, node_release_in_del=node_in_del)
+                copy_sites=[list(c) for c in copy_rows], node_realloc_on_add=node_realloc, node_release_in_del=node_in_del,
+                keys_write_sites=[list(r) for r in key_rows], keys_exposed=key_exposed, keys_read_sites=key_reads,
+                node_setitem_registers=node_registers,
+                node_copy_registers=all(ok for _, _, c, ok, _ in key_rows if c == 'KwCtor'))
     return '\n'.join(lines), side
 
 
